@@ -106,6 +106,19 @@ RemoveChild ==
             Commit([k |-> "removechild", path |-> p, key |-> k, index |-> e],
                    SetAt(cur, p, WithItems(b, [b.items EXCEPT ![i] = <<k, List(RemoveAt(v.elems, e))>>])))
 
+\* d[p][listkey].append(d[p][listkey][e]) : the SAME object a second time (no copy).  What the dictionary says is two
+\* objects; only as the last edit of a history (a later edit through one path would show through the other)
+AliasChild ==
+    /\ nedits = MaxEdits - 1
+    /\ \E p \in Pick(BlockPaths(cur)) :
+      LET b == GetAt(cur, p) IN
+      /\ ListKeys(b) # {}
+      /\ \E i \in Pick(ListKeys(b)) :
+          LET k == b.items[i][1]  v == b.items[i][2] IN
+          \E e \in Pick(1..Len(v.elems)) :
+            Commit([k |-> "aliaschild", path |-> p, key |-> k, index |-> e],
+                   SetAt(cur, p, WithItems(b, [b.items EXCEPT ![i] = <<k, List(Append(v.elems, v.elems[e]))>>])))
+
 \* d[p][listkey].reverse()
 ReorderChildren ==
     \E p \in Pick(BlockPaths(cur)) :
@@ -179,7 +192,7 @@ Reload ==
     /\ ~Unprintable(cur)
     /\ Commit([k |-> "reload"], Reloaded(cur))
 
-Edit == done /\ nedits < MaxEdits /\ (Reload \/ UpdatePatch \/ SetHidden \/ SetHiddenKV \/ SetAttr \/ DelKey \/ AddChild \/ RemoveChild \/ ReorderChildren \/ ReadMissing)
+Edit == done /\ nedits < MaxEdits /\ (Reload \/ UpdatePatch \/ SetHidden \/ SetHiddenKV \/ SetAttr \/ DelKey \/ AddChild \/ RemoveChild \/ ReorderChildren \/ AliasChild \/ ReadMissing)
 
 EFinish ==
     /\ ~done
